@@ -185,11 +185,11 @@ def gen_project(rng):
         "exclude_std": rng.chance(3, 4),
         # At most one known-hazardous interaction class per history (see notes/C07.md); "none" = the
         # client avoids all of them, so that everything else keeps being explored:
-        #  racy_open        first didOpen / willDelete of a file may arrive while a background task runs
+        #  racy_open        didOpen / didChange / willDelete may arrive while a background task runs
         #  stale_replay     a file may be deleted/renamed while it is the target of the latest change
         #  rename_during_bg didRename may arrive while a background task is pending
         #  path_reuse       a file may (re)appear under a path that was open earlier in the session
-        "hazard": rng.pick(["none"] * 8 + ["racy_open"] * 3 + ["stale_replay"] * 3 +
+        "hazard": rng.pick(["none"] * 7 + ["racy_open"] * 4 + ["stale_replay"] * 3 +
                            ["rename_during_bg"] * 3 + ["path_reuse"] * 3),
         "name": "c07prj",
     }
@@ -785,7 +785,9 @@ class Client:
         return diags
 
     def do_open(self, rel, text):
-        if not self.racy and rel not in self.ever_open:
+        # Only histories of the racy_open class let the server process an analysis-triggering message
+        # while a background pass is half way (the analyzer state is inconsistent then: notes/C07.md A).
+        if not self.racy:
             self.wait()
         self.ever_open.add(rel)
         self.open[rel] = text
@@ -796,6 +798,8 @@ class Client:
         return self.ack(rel, uri, self.version, idle)
 
     def do_change(self, rel, text):
+        if not self.racy:
+            self.wait()
         idle = self.idle()
         self.open[rel] = text
         self.version += 1
@@ -1017,8 +1021,12 @@ def run_case(case, scratch, timeout):
             try:
                 fresh_run(root, home, base, "control", buffers, timeout)
                 site = panic_site(str(e))
-                res.update(status="violation", at_op=at_op, transcript=h.transcript[-200:], violations=[{
-                    "kind": "history-dependent-panic", "sig": f"C07:history-dependent-panic:{site}",
+                # racy_open histories: one class signature (a message was processed while a background
+                # pass was half way; the panic site varies); elsewhere the site identifies the defect
+                sig = "C07:history-dependent-panic:hz=racy_open" if c.racy else f"C07:history-dependent-panic:{site}"
+                res.update(status="violation", at_op=at_op, transcript=h.transcript[-200:],
+                           server_stderr=h.stderr_text()[-4000:], violations=[{
+                    "kind": "history-dependent-panic", "sig": sig,
                     "what": f"veryl-ls panicked at {site} during the history (op #{at_op}: "
                             f"{ {k: v for k, v in case['ops'][at_op].items() if k not in ('text', 'opener')} if 0 <= at_op < len(case['ops']) else 'final round'}) "
                             f"and publishes nothing any more; a fresh server handles the same buffers"}])
